@@ -34,7 +34,7 @@ CLAIMED.update({
 CLAIMED.update({
     "C05": ("static who-may-send/receive/launch analysis, dominance of sort over fill, lock-held dataflow, who-may-write LogChunk.ID",
             "The structural carriers of ordering: each FIFO on the path has one producer role and one consumer goroutine, a flush sends a batch that is never refilled (a fresh copy taken before truncation, or the pending slice handed over and replaced by a newly made one), every leftovers channel is built by the sort-then-fill-with-dedup constructor, "
-            "resend precedes new input, recovery is sorted and precedes feeder/worker start, chunk ids only come from the generator (counters under its mutex, fixed-width format). Wall-clock monotonicity and the interleavings are not decided.", "§4 C05"),
+            "resend precedes new input, the chunk the chunk maker hands on is the one that was open (chunks leave in the order their streams arrived), recovery is sorted and precedes feeder/worker start, chunk ids only come from the generator (counters under its mutex, fixed-width format). Wall-clock monotonicity and the interleavings are not decided.", "§4 C05"),
     "C09": ("static exactly-once path enumeration and must-pass (cleaner between cut and store) over SSA; index safety by the C07 engine",
             "Accounting and truncation clauses of the parser on every path: one of pass/drop per message after RawLength is set, nil exactly on drop paths with one release, overflow counted and UTF-8 clean-up on every path that cuts the message, "
             "one release on input-stage drops; the record's private copy is the whole line; a token split at a delimiter index consumes exactly the delimiter (remainder = token end + 1, proved by the facts engine), so no byte of the line is lost between two header tokens or in front of the message; the cleaner is delegated to the library's ToValidUTF8. Which substring is which header field beyond that is value-level and not decided.", "§4 C09"),
@@ -90,7 +90,7 @@ CLAIMED.update({
     "C13": ("static index-safety proofs (compiler prove pass + linear facts engine with call-site preconditions), exactly-once path enumeration, dominance and idiom rules over SSA",
             "Totality: every fixed-offset read and slice in the timestamp parser is proved in bounds for strings of every length (no reviewed exceptions); the shape test (length 19 and five separators) dominates every digit read and every failing path returns a non-nil error; "
             "on every path of the transform exactly one of {error counted, Timestamp assigned} happens and the assignment only on the nil-error edge (fallback time kept on errors); the float fraction reaches time.Date only through math.Round; every location given to time.Date is a fixed offset (time.UTC, time.FixedZone, cache values that are such; time.Local only without a stated zone). "
-            "Exactness of the calendar arithmetic (time.Date, time.Parse for offsets) and rejection of non-digit bytes are not decided.", "§4 C13"),
+            "The instant of every successfully parsed timestamp is the result of time.Date on the decoded fields and every zone offset the result of time.Parse (the delegation is checked; a hand-written computation fails as undecided). Exactness of the library's calendar arithmetic and rejection of non-digit bytes are not decided.", "§4 C13"),
 })
 
 CLAIMED.update({
